@@ -60,37 +60,37 @@ type Stats struct {
 
 // Client is one WebSocket client connection.
 type Client struct {
-	w      *World
-	Idx    int
-	ws     *websocket.Conn
-	wmu    sync.Mutex
-	CID    string
-	Ref    *RefClient
-	Closed bool // closed by the client side
-	EOF    bool // reader saw the end
-	Dialed bool
-	DialErr string
+	w          *World
+	Idx        int
+	ws         *websocket.Conn
+	wmu        sync.Mutex
+	CID        string
+	Ref        *RefClient
+	Closed     bool // closed by the client side
+	EOF        bool // reader saw the end
+	Dialed     bool
+	DialErr    string
 	DialStatus int
 	DialHeader http.Header
-	NextID uint64
-	Headers map[string]string
+	NextID     uint64
+	Headers    map[string]string
 }
 
 // HTTPCall is one HTTP request issued through Service.ServeHTTP.
 type HTTPCall struct {
-	ID     int
-	Method string
-	URL    string
-	Header map[string]string
-	Body   string
-	CID    string
-	Done   bool
-	Code   int
+	ID         int
+	Method     string
+	URL        string
+	Header     map[string]string
+	Body       string
+	CID        string
+	Done       bool
+	Code       int
 	RespHeader http.Header
 	RespBody   []byte
-	Rejected bool // the HTTP layer itself rejected the request line
-	StartT int
-	DoneT  int
+	Rejected   bool // the HTTP layer itself rejected the request line
+	StartT     int
+	DoneT      int
 }
 
 // World owns the gateway under test and both of its boundaries.
@@ -109,24 +109,24 @@ type World struct {
 	HTTP    []*HTTPCall
 	httpMu  sync.Mutex
 
-	cidOwner  map[string]int // cid -> actor (client idx, or 1000+http id)
-	absorbed  int
-	newActor  int // actor that receives the next unknown conn.<cid> subscription
-	Script    []Op
-	Race      bool
-	stats     Stats
-	Failed    string // harness-level failure (inconclusive)
-	Deadlock  string
-	Stalled   bool
-	stopped   bool
-	StopErrs  []string
-	stopCh    <-chan error
-	StopSeen  []string
+	cidOwner    map[string]int // cid -> actor (client idx, or 1000+http id)
+	absorbed    int
+	newActor    int // actor that receives the next unknown conn.<cid> subscription
+	Script      []Op
+	Race        bool
+	stats       Stats
+	Failed      string // harness-level failure (inconclusive)
+	Deadlock    string
+	Stalled     bool
+	stopped     bool
+	StopErrs    []string
+	stopCh      <-chan error
+	StopSeen    []string
 	qevSubjects map[string]string // query event subject -> resource name
-	Monitors []Monitor
-	tokens   map[int][]string // actor -> token history (JSON text), "" = none
-	closedAt map[int]int
-	started  bool
+	Monitors    []Monitor
+	tokens      map[int][]string // actor -> token history (JSON text), "" = none
+	closedAt    map[int]int
+	started     bool
 }
 
 type nullLogger struct {
@@ -380,6 +380,9 @@ func (w *World) execOne(op Op) {
 		c := w.client(op.C)
 		if c == nil || !c.Dialed || c.Closed || c.EOF {
 			return
+		}
+		if op.ID >= c.NextID {
+			c.NextID = op.ID + 1
 		}
 		var frame string
 		if op.P != "" {
@@ -805,6 +808,9 @@ type Violation struct {
 	Class    string `json:"class"`
 	Message  string `json:"message"`
 	Step     int    `json:"step"`
+	Conn     int    `json:"conn"`
+	RID      string `json:"rid,omitempty"`
+	T        int    `json:"t,omitempty"`
 }
 
 func jsonCompact(b []byte) string {
